@@ -145,9 +145,25 @@ func (w *rqWorld) call(name string, rp *rqReply, proc uint32, args []byte, summa
 	}
 	rp.status = res.Status
 	rp.summary = wire.StatName(res.Status)
-	if summarize != nil && res.Status == 0 {
-		rp.summary += ":" + summarize(res)
+	if summarize != nil {
+		if x := summarize(res); x != "" {
+			rp.summary += ":" + x
+		}
 	}
+}
+
+// trace renders the event log compactly (for violation messages).
+func (w *rqWorld) trace() string {
+	var parts []string
+	for _, e := range w.events {
+		switch e.kind {
+		case "backend":
+			parts = append(parts, e.who+":"+e.op)
+		default:
+			parts = append(parts, e.who+":"+e.kind)
+		}
+	}
+	return strings.Join(parts, " | ")
 }
 
 func (w *rqWorld) idx(kind, whoPrefix string) int {
